@@ -6,7 +6,7 @@ use std::{cmp::Ordering, collections::BTreeSet, hash::Hash, io::Write, rc::Rc};
 use roaring::{MultiOps, RoaringBitmap};
 use ustr::{Ustr, ustr};
 
-use crate::regex::{Position, Regex, RegexId, RegexInput, RegexInternPool};
+use crate::regex::{Position, Regex, RegexId, RegexInput, RegexInternPool, escape_dot_string};
 use crate::{CommandId, Error, LiteralId, Result, StateId};
 
 // Every state in a DFA is formally defined to have a transition on *every* input symbol.  In
@@ -815,7 +815,7 @@ fn do_to_dot<W: Write>(
                     let label = {
                         let mut buffer = String::new();
                         diagnostic_display_input(&mut buffer, input)?;
-                        buffer.replace('\"', "\\\"")
+                        escape_dot_string(&buffer)
                     };
                     writeln!(
                         output,
@@ -841,7 +841,7 @@ fn do_to_dot<W: Write>(
                         writeln!(
                             output,
                             r#"{indentation}_{subdfa_identifiers_prefix}{} -> _{identifiers_prefix}{} [style="dashed"];"#,
-                            subdfa_accepting_state,
+                            subdfa_accepting_state + array_start,
                             to + array_start
                         )?;
                     }
